@@ -47,7 +47,8 @@ SELECTIONS = [
 SCENARIOS = ["same-var-2", "same-var-3", "different-vars", "pickled+original", "pickled-only", "mixed-3",
              "same-geometry-vars", "same-geometry-pickled",
              # the same on a filesystem that hands out one shared file object per path (memory://)
-             "same-var-2@shared", "pickled+original@shared", "pickled-only@shared", "mixed-3@shared"]
+             "same-var-2@shared", "pickled+original@shared", "pickled-only@shared", "mixed-3@shared",
+             "unpickle-while-loading", "unpickle-while-loading@shared"]
 
 
 class SchedulerAbort(BaseException):
@@ -216,6 +217,9 @@ def install_cooperative_locks(tree):
     return found
 
 
+BLOBS = {}
+
+
 @functools.lru_cache(maxsize=None)
 def world(shared=False):
     # HH and VH have the same geometry (same record length, same chunk byte sizes), HV differs
@@ -225,8 +229,9 @@ def world(shared=False):
     if shared:
         # one shared file object per path, as fsspec's memory filesystem hands out
         vtrace.STORE.shared_products.add(prod.name)
-    tree = harness.open_tree(prod.url, use_cache=False, records_per_chunk=2)
-    copy = pickle.loads(pickle.dumps(tree))
+    tree, _ = harness.reference_open(prod.url, use_cache=False, records_per_chunk=2)
+    BLOBS[shared] = pickle.dumps(tree)  # before the cooperative proxies go in
+    copy = pickle.loads(BLOBS[shared])
     NOTES[f"cooperative-locks-installed={install_cooperative_locks(tree) + install_cooperative_locks(copy)}"] += 0
     return tree, copy
 
@@ -257,6 +262,8 @@ def actors(scenario):
         # two different images whose records and chunks have identical byte sizes
         "same-geometry-vars": [("tree", "HH"), ("tree", "VH")],
         "same-geometry-pickled": [("tree", "HH"), ("copy", "VH")],
+        # a thread that first unpickles a copy of the tree and then loads from it
+        "unpickle-while-loading": [("tree", "HH"), ("fresh-copy", "HH")],
     }[scenario]
 
 
@@ -277,8 +284,14 @@ def run_threads(acts, sels, schedule, shared=False):
     def body(tid, which, group, sel_index):
         sched.local.tid = tid
         try:
-            t = tree if which == "tree" else copy
             sched.yield_point(("start",))
+            if which == "fresh-copy":
+                # this thread unpickles its own copy of the tree while the others are loading
+                # (whatever unpickling does to shared files happens in the middle of their reads)
+                t = pickle.loads(BLOBS[shared])
+                install_cooperative_locks(t)
+            else:
+                t = tree if which == "tree" else copy
             results[tid] = np.asarray(t[f"imagery/{group}"]["data"].isel(**to_sel(SELECTIONS[sel_index])).values)
         except SchedulerAbort:
             errors[tid] = "aborted"
